@@ -1,6 +1,6 @@
 use std::{
     io::Read,
-    ops::{BitAnd, BitOr, BitXor, Not, Rem},
+    ops::{BitAnd, BitOr, BitXor, Not},
 };
 
 use crate::{
@@ -1339,7 +1339,7 @@ fn const_eval_intrinsic(
                         Intrinsic::Sub => arg1.checked_sub(arg2),
                         Intrinsic::Mul => arg1.checked_mul(arg2),
                         Intrinsic::Div => arg1.checked_div(arg2),
-                        Intrinsic::Mod => Some(arg1.rem(arg2)),
+                        Intrinsic::Mod => arg1.checked_rem(arg2),
                         _ => unreachable!(),
                     };
 
